@@ -40,6 +40,10 @@ pub struct Profile {
     pub effect_weight: u32,
     /// main takes two scalar arguments of its return type
     pub allow_main_args: bool,
+    /// script constants read (also field by field) from functions
+    pub consts: bool,
+    /// `let` in an inner block reusing the name of an enclosing block's variable
+    pub shadowing: bool,
 }
 
 impl Profile {
@@ -62,6 +66,8 @@ impl Profile {
             budget: 260,
             effect_weight: 0,
             allow_main_args: true,
+            consts: true,
+            shadowing: true,
         }
     }
 }
@@ -107,6 +113,10 @@ pub struct Gen<'c> {
     /// loop nesting (limits nested loops)
     loop_depth: u32,
     in_const: bool,
+    /// > 0 while a block is generated to which statements made in the enclosing scope are appended
+    no_shadow: u32,
+    /// script constants: readable everywhere, never assigned
+    globals: Vec<VarInfo>,
     /// sabotage (C07): index of the typed expression site to fill with a value of another type
     pub sab: Option<u32>,
     /// number of sabotage sites seen so far (sites where the context fixes the expected type)
@@ -166,6 +176,8 @@ impl<'c> Gen<'c> {
             sab_seen: 0,
             sab_desc: None,
             in_const: false,
+            no_shadow: 0,
+            globals: Vec::new(),
         }
     }
 
@@ -396,6 +408,36 @@ impl<'c> Gen<'c> {
             p.fields.push(n);
             self.collect_places(&t, p, want, depth - 1, out);
         }
+    }
+
+    /// `<record-valued expression>.field`: the field of a record that is computed on the spot
+    /// (call, literal, block, if, match), not of a variable
+    fn computed_field(&mut self, ty: &Ty, d: u32) -> Option<Expr> {
+        let mut cands: Vec<(Ty, String)> = Vec::new();
+        for (i, dcl) in self.prog.decls.iter().enumerate() {
+            if let TypeDecl::Record { params, fields, .. } = dcl {
+                if params.is_empty() {
+                    for (n, t) in fields {
+                        if t == ty {
+                            cands.push((Ty::Rec(i, vec![]), n.clone()));
+                        }
+                    }
+                }
+            }
+        }
+        let (rt, f) = if !cands.is_empty() && self.c.chance(170) {
+            cands[self.c.below(cands.len())].clone()
+        } else {
+            let other = ("zo".to_string(), Ty::Int(IntTy::I32));
+            let mine = ("zf".to_string(), ty.clone());
+            let fs = if self.c.chance(128) { vec![mine, other] } else { vec![other, mine] };
+            (Ty::Anon(fs), "zf".to_string())
+        };
+        // (an anonymous record type cannot be written out for an annotated temporary and met
+        // again, see `leaf`: such a receiver is a literal)
+        let r = if matches!(rt, Ty::Anon(_)) { self.construct(&rt, Fix::Exact, d) } else { self.expr(&rt, d, Fix::Exact) };
+        let r = if matches!(r, Expr::Record(..)) { Expr::Paren(Box::new(r)) } else { r };
+        Some(Expr::Field(Box::new(r), f))
     }
 
     fn place_expr(p: &Place) -> Expr {
@@ -629,7 +671,10 @@ impl<'c> Gen<'c> {
         }
         let k = self.c.below(10);
         // variables / places
-        if k >= 3 {
+        // a value of a written-out anonymous record type is not accepted where the same type is
+        // written out a second time (roto compares the two spellings by identity), so where the
+        // context fixes such a type the value is built on the spot
+        if k >= 3 && !(fix != Fix::No && mentions_anon(ty)) {
             let ps = self.places_of_x(ty, false, fix == Fix::Exact);
             if !ps.is_empty() {
                 let p = ps[self.c.below(ps.len())].clone();
@@ -808,6 +853,11 @@ impl<'c> Gen<'c> {
             }
             5 => {
                 if let Some(e) = self.match_expr(ty, d, fix) {
+                    return e;
+                }
+            }
+            7 if self.prof.aggregates && !matches!(ty, Ty::Param(_)) && !mentions_anon(ty) => {
+                if let Some(e) = self.computed_field(ty, d) {
                     return e;
                 }
             }
@@ -1013,6 +1063,8 @@ impl<'c> Gen<'c> {
     }
 
     fn arith(&mut self, ty: &Ty, op: BinOp, d: u32, fix: Fix) -> Expr {
+        // a constant initialiser runs while the script is compiled: nothing that may trap there
+        let op = if self.in_const && ty.is_int() && matches!(op, BinOp::Div | BinOp::Rem) { BinOp::Add } else { op };
         // the left operand is checked without an expected type; the right one against the left's type
         let lfix = if fix == Fix::Direct { Fix::Later } else { fix };
         let l = self.expr(ty, d, lfix);
@@ -1376,6 +1428,33 @@ impl<'c> Gen<'c> {
     }
 
     fn let_stmt(&mut self, d: u32) -> Stmt {
+        // shadowing: a `let` in an inner block may reuse the name of a variable of an enclosing
+        // block (of the same or another type); its initialiser still sees the outer variable
+        if self.prof.shadowing && self.no_shadow == 0 && self.scopes.len() >= 2 && self.c.chance(26) {
+            let inner: std::collections::HashSet<String> = self.scopes.last().unwrap().iter().map(|v| v.name.clone()).collect();
+            let outer: Vec<VarInfo> = self
+                .all_vars()
+                .into_iter()
+                .filter(|v| v.concrete && v.assignable && v.name.starts_with('v') && !inner.contains(&v.name))
+                .collect();
+            if !outer.is_empty() {
+                let v = outer[self.c.below(outer.len())].clone();
+                let t = if self.c.chance(180) { v.ty.clone() } else { self.value_ty(2) };
+                let e = match &t {
+                    Ty::Int(_) if t == v.ty && self.c.chance(150) => {
+                        let k = self.expr(&t, 1, Fix::Direct);
+                        let op = if self.c.chance(128) { BinOp::Mul } else { BinOp::Add };
+                        Expr::Bin(op, Box::new(Expr::Var(v.name.clone())), Box::new(k))
+                    }
+                    // (a variable of a written-out anonymous record type is not accepted where the
+                    // same type is written out again: such values are always built as literals)
+                    _ if t == v.ty && !mentions_anon(&t) && self.c.chance(100) => Expr::Var(v.name.clone()),
+                    _ => self.expr(&t, d, Fix::Direct),
+                };
+                self.bind(&v.name, t.clone(), true);
+                return Stmt::Let(v.name, Some(t), e);
+            }
+        }
         let t = self.value_ty(2);
         let name = self.fresh("v");
         // annotation may be dropped when the initialiser determines its own type
@@ -1504,7 +1583,10 @@ impl<'c> Gen<'c> {
                     fuel
                 };
                 self.loop_depth += 1;
+                // statements made in this scope are appended to the body below: no shadowing inside
+                self.no_shadow += 1;
                 let mut body = self.unit_block(d, 3);
+                self.no_shadow -= 1;
                 self.loop_depth -= 1;
                 body.stmts.push(Stmt::Expr(Expr::Assign(
                     Place { var: w.clone(), fields: vec![] },
@@ -1549,7 +1631,9 @@ impl<'c> Gen<'c> {
                 self.scopes.push(Vec::new());
                 self.bind(&x, et, true);
                 self.loop_depth += 1;
+                self.no_shadow += 1;
                 let mut body = self.unit_block(d, 3);
+                self.no_shadow -= 1;
                 // pushing to the iterated list from inside the loop, bounded by its length
                 if let Expr::Var(lv) = &list {
                     if self.prof.lists && self.c.chance(60) {
@@ -1683,6 +1767,7 @@ impl<'c> Gen<'c> {
         self.cur_ret = self.prog.funcs[idx].ret.clone();
         self.cur_kind = self.prog.funcs[idx].kind;
         self.scopes.clear();
+        self.scopes.push(self.globals.clone());
         self.scopes.push(Vec::new());
         let params = self.prog.funcs[idx].params.clone();
         for (i, (n, t)) in params.iter().enumerate() {
@@ -1715,11 +1800,54 @@ impl<'c> Gen<'c> {
         self.prog.funcs[idx].body = Block { stmts, tail };
     }
 
+    /// 0-2 script constants of generated types (no lists: a list constant is shared between the
+    /// calls made on one package, the model starts afresh for every call); their initialisers
+    /// have no inputs, no effects and nothing that may trap or leave
+    /// does a value of the type hold a list anywhere (also through declared records and enums)?
+    fn holds_list(&self, t: &Ty, depth: u32) -> bool {
+        if depth == 0 {
+            return true;
+        }
+        match t {
+            Ty::List(_) => true,
+            Ty::Opt(a) => self.holds_list(a, depth - 1),
+            Ty::Result(a, b) | Ty::Verdict(a, b) => self.holds_list(a, depth - 1) || self.holds_list(b, depth - 1),
+            Ty::Anon(_) | Ty::Rec(..) => self.fields_of(t).iter().any(|(_, ft)| self.holds_list(ft, depth - 1)),
+            Ty::Enum(..) => self.variants_of(t).iter().any(|(_, ts)| ts.iter().any(|ft| self.holds_list(ft, depth - 1))),
+            _ => false,
+        }
+    }
+
+    fn gen_consts(&mut self) {
+        if !self.prof.consts || !self.c.chance(96) {
+            return;
+        }
+        let n = 1 + self.c.below(2);
+        self.in_const = true;
+        self.cur_kind = FnKind::Fn;
+        self.cur_ret = Ty::Unit;
+        for i in 0..n {
+            let t = self.value_ty(2);
+            if self.holds_list(&t, 6) {
+                continue;
+            }
+            self.scopes.clear();
+            self.scopes.push(self.globals.clone());
+            self.scopes.push(Vec::new());
+            let init = if self.c.chance(128) { self.construct(&t, Fix::Direct, 2) } else { self.expr(&t, 2, Fix::Direct) };
+            let name = format!("K{i}");
+            self.prog.consts.push(ConstDecl { name: name.clone(), ty: t.clone(), init });
+            self.globals.push(VarInfo { name, ty: t, assignable: false, concrete: true });
+        }
+        self.in_const = false;
+    }
+
     /// Generate with sabotage target `target`; returns the program, the number of sabotage
     /// sites and the description of the sabotage (None if the target was not reached).
     pub fn program_sabotaged(mut self, main_ret_choices: &[Ty], target: Option<u32>) -> (Program, u32, Option<String>) {
         self.sab = target;
         self.gen_decls();
+        self.gen_consts();
         let mr = main_ret_choices[self.c.below(main_ret_choices.len())].clone();
         let with_args = self.prof.allow_main_args && mr.is_scalar() && self.c.chance(128);
         let params = if with_args { vec![("a".to_string(), mr.clone()), ("b".to_string(), mr.clone())] } else { vec![] };
@@ -1728,11 +1856,13 @@ impl<'c> Gen<'c> {
         for i in 0..n {
             self.gen_body(i);
         }
+        self.prog.layout = self.c.byte();
         (self.prog, self.sab_seen, self.sab_desc)
     }
 
     pub fn program(mut self, main_ret_choices: &[Ty]) -> Program {
         self.gen_decls();
+        self.gen_consts();
         let mr = main_ret_choices[self.c.below(main_ret_choices.len())].clone();
         let with_args = self.prof.allow_main_args && mr.is_scalar() && self.c.chance(128);
         let params = if with_args { vec![("a".to_string(), mr.clone()), ("b".to_string(), mr.clone())] } else { vec![] };
@@ -1741,6 +1871,8 @@ impl<'c> Gen<'c> {
         for i in 0..n {
             self.gen_body(i);
         }
+        // declarations may stand in any order in the source text
+        self.prog.layout = self.c.byte();
         self.prog
     }
 }
@@ -1769,4 +1901,14 @@ fn inner_fix(fix: Fix) -> Fix {
 fn fmt_float_body(body: &str) -> String {
     // `{:?}` always contains '.' or 'e', which the lexer needs to see a float
     body.to_string()
+}
+
+fn mentions_anon(t: &Ty) -> bool {
+    match t {
+        Ty::Anon(_) => true,
+        Ty::Opt(a) | Ty::List(a) => mentions_anon(a),
+        Ty::Result(a, b) | Ty::Verdict(a, b) => mentions_anon(a) || mentions_anon(b),
+        Ty::Rec(_, args) | Ty::Enum(_, args) => args.iter().any(mentions_anon),
+        _ => false,
+    }
 }
